@@ -1,3 +1,4 @@
 import Drv.Common
 import Drv.Args
 import Drv.Store
+import Drv.Pipeline
